@@ -139,7 +139,24 @@ let verify_prog (print_annot : bool) (name : string) (fields : Sexp.t list) : st
        | None ->
          let d = match infer_function p fd with None -> diagnose_infer p fd | Some _ -> diagnose p fd in
          Error (Printf.sprintf "(%s reject (fn %d) %s)" name idx d)) in
+  (* table cross-references (vm/Tables.v): only when the dump carries them *)
+  let tables_verdict =
+    try
+      let nats l = List.map (fun x -> nat_of_int (ios x)) l in
+      let tys = List.map (fun t -> match t with
+          | Sexp.List [Sexp.Atom "ty"; Sexp.List a; Sexp.List b] -> (nats a, nats b)
+          | _ -> failwith "bad ty") (field "tyrefs" fields) in
+      let tups = List.map (fun t -> nats (Sexp.list t)) (field "tuprefs" fields) in
+      let bis = List.map (fun t -> match Sexp.list t with [a; b] -> (nat_of_int (ios a), nat_of_int (ios b)) | _ -> failwith "bad bi") (field "birefs" fields) in
+      let fnt = List.map (fun f -> match f with
+          | Sexp.List [Sexp.Atom "fn"; _; ty; _] -> nat_of_int (ios ty)
+          | _ -> failwith "bad fn") (field "fns" fields) in
+      Some (tables_ok { tb_types = tys; tb_tuples = tups; tb_builtins = bis; tb_fn_types = fnt })
+    with Failure _ -> None in
   let r = go 0 p.p_funcs (0, 0, []) in
+  let r = match r, tables_verdict with
+    | Ok _, Some false -> Error (Printf.sprintf "(%s reject (fn -1) (pc -1) \"a type/tuple id mentioned inside the program's tables is out of range\")" name)
+    | _ -> r in
   (if name = "as-compiled" then last_code := Array.of_list (List.map (fun fd -> Array.of_list fd.f_code) p.p_funcs));
   (if name = "as-compiled" then
      last_annots := (match r with Ok _ -> Some (Array.of_list (List.rev !collected)) | Error _ -> None));
